@@ -29,7 +29,9 @@ RULE = (
     "rule event at exactly the instant of source notifications may be ordered before or after them, but one way for the "
     "whole burst (all combinations enumerated, observation must equal one).  Buffers: the buffer_* trace must equal "
     "[(window end tick, window contents) for every window of the window_* run that completed, in completion order] plus "
-    "the corresponding terminal.  Non-trivial: >=2 windows with >=1 element each.  Distinct = distinct case JSON."
+    "the corresponding terminal.  group_join is judged on its documented duration semantics (a left window receives the "
+    "right values whose duration overlaps it: those alive when it opens, in arrival order, and those arriving while it is "
+    "open).  Non-trivial: >=2 windows with >=1 element each.  Distinct = distinct case JSON."
 )
 ASSUMPTIONS = [
     "same-instant order of a rule event and the source burst is unspecified: either is accepted, consistently per rule event for the whole burst",
@@ -41,6 +43,13 @@ ASSUMPTIONS = [
 ]
 
 INNER = {"mode": "now"}
+
+# Property text: "all open windows end with the source's terminal kind" for every listed rule, toggle included.
+# window_toggle (built on group_join) does not do that for a *completion* (signature
+# "toggle:open-window-outlives-source-completion|window_toggle", proposed_fixes/C18-window-toggle-source-completion.diff).
+# Every other toggle clause is judged independently of it; the deviation is recognised by re-running the reference
+# simulation with group_join's behaviour, so that any *other* toggle failure keeps its own signature.
+TOGGLE_SOURCE_COMPLETION_ENDS_WINDOWS = True
 
 
 # ------------------------------------------------------------------------------------------------
@@ -308,7 +317,7 @@ def _check_count(case, obs_w, eff):
 # run
 
 
-def _sim_for(case, eff, mode=True):
+def _sim_for(case, eff, mode=TOGGLE_SOURCE_COMPLETION_ENDS_WINDOWS):
     f = case["form"]
     sub = case.get("sub", 0)
     H = _horizon(case)
@@ -544,11 +553,11 @@ def checks(tier):
     q = tier == "quick"
     return [
         Check("count_enum", _run, cases=_enum_count, shards={"quick": 4, "thorough": 16}, exhaustive=True),
-        Check("count", _run, strategy=_gen_form("count"), examples={"quick": 300, "thorough": 16 * 3000}, shards={"quick": 4, "thorough": 16}),
-        Check("time", _run, strategy=_gen_form("time"), examples={"quick": 700, "thorough": 16 * 6000}, shards={"quick": 4, "thorough": 16}),
-        Check("time_or_count", _run, strategy=_gen_form("toc"), examples={"quick": 500, "thorough": 16 * 4000}, shards={"quick": 4, "thorough": 16}),
-        Check("boundary", _run, strategy=_gen_form("boundary"), examples={"quick": 400, "thorough": 16 * 3000}, shards={"quick": 4, "thorough": 16}),
-        Check("when", _run, strategy=_gen_form("when"), examples={"quick": 400, "thorough": 16 * 3000}, shards={"quick": 4, "thorough": 16}),
-        Check("group_join", _run, strategy=_gen_form("gjoin"), examples={"quick": 400, "thorough": 16 * 3000}, shards={"quick": 4, "thorough": 16}),
-        Check("toggle", _run, strategy=_gen_form("toggle"), examples={"quick": 500, "thorough": 16 * 4000}, shards={"quick": 4, "thorough": 16}),
+        Check("count", _run, strategy=_gen_form("count"), examples={"quick": 300, "thorough": 16 * 2000}, shards={"quick": 4, "thorough": 16}),
+        Check("time", _run, strategy=_gen_form("time"), examples={"quick": 700, "thorough": 16 * 5000}, shards={"quick": 4, "thorough": 16}),
+        Check("time_or_count", _run, strategy=_gen_form("toc"), examples={"quick": 500, "thorough": 16 * 3000}, shards={"quick": 4, "thorough": 16}),
+        Check("boundary", _run, strategy=_gen_form("boundary"), examples={"quick": 400, "thorough": 16 * 2500}, shards={"quick": 4, "thorough": 16}),
+        Check("when", _run, strategy=_gen_form("when"), examples={"quick": 400, "thorough": 16 * 2500}, shards={"quick": 4, "thorough": 16}),
+        Check("group_join", _run, strategy=_gen_form("gjoin"), examples={"quick": 400, "thorough": 16 * 2500}, shards={"quick": 4, "thorough": 16}),
+        Check("toggle", _run, strategy=_gen_form("toggle"), examples={"quick": 500, "thorough": 16 * 3000}, shards={"quick": 4, "thorough": 16}),
     ]
